@@ -93,3 +93,34 @@ Proof.
   destruct (full_step raw s o order) as [[[s' outs] rt] ub].
   intros [H|H]; [subst; discriminate|eauto].
 Qed.
+
+(* guards that are predicates on the states of the run *)
+Fixpoint run_states (raw : option config) (s : bal) (ops : list (op * list nat)) : list bal :=
+  s :: match ops with
+       | [] => []
+       | (o, order) :: r => let '(s', _, _, _) := full_step raw s o order in run_states raw s' r
+       end.
+
+Definition state_guard (raw : option config) (P : bal -> Prop) (s : bal) (o : op) (order : list nat) : Prop :=
+  P s /\ let '(s', _, _, _) := full_step raw s o order in P s'.
+
+Lemma guarded_states raw (P : bal -> Prop) : forall ops s,
+  Forall P (run_states raw s ops) -> guarded raw (state_guard raw P) s ops.
+Proof.
+  induction ops as [|[o order] r IH]; intros s H; cbn; [exact I|].
+  cbn in H. unfold state_guard. destruct (full_step raw s o order) as [[[s' outs] rt] ub].
+  inversion H as [|? ? H1 H2]; subst. split; [split; [exact H1|]|apply IH, H2].
+  destruct r as [|[o' order'] r']; cbn in H2; inversion H2; assumption.
+Qed.
+
+(* guards on the events of the run *)
+Definition event_guard (raw : option config) (Q : event -> Prop) (s : bal) (o : op) (order : list nat) : Prop :=
+  let '(s', outs, rt, ub) := full_step raw s o order in Q (mkEvent o outs rt ub (Some (observe s'))).
+
+Lemma guarded_events raw (Q : event -> Prop) : forall ops s,
+  Forall Q (run raw s ops) -> guarded raw (event_guard raw Q) s ops.
+Proof.
+  induction ops as [|[o order] r IH]; intros s H; cbn; [exact I|].
+  cbn in H. unfold event_guard. destruct (full_step raw s o order) as [[[s' outs] rt] ub].
+  inversion H; subst. split; [assumption|apply IH; assumption].
+Qed.
